@@ -142,8 +142,13 @@ func slowDownload(rec *vr.Rec, reps int, seed int64) {
 					case r = <-done:
 					case <-time.After(10 * time.Second):
 						rec.Violation("C04/"+kind+"/slow-download/call-does-not-return-after-cancel", "the download stopped making progress after housekeeping; the call did not return within 10 s after its context was cancelled", c)
-						closef()
-						r = <-done
+						// nothing more can be learnt from this connection: closing it may block on the same thing
+						go closef()
+						select {
+						case r = <-done:
+						case <-time.After(5 * time.Second):
+							return
+						}
 					}
 					rec.Count("slow_downloads_ended_by_caller_context", 1)
 					break loop
